@@ -176,6 +176,12 @@ func (e *Engine) verifyFunc(pkg *packages.Package, decl *ast.FuncDecl, profile s
 		fc.name += "[" + profile + "]"
 	}
 	e.curFunc = fc.name
+	if c != nil {
+		if e.funcLemmas == nil {
+			e.funcLemmas = map[string][]string{}
+		}
+		e.funcLemmas[fc.name] = c.Lemmas
+	}
 	e.onStore = fc.storeHook
 	if e.funcFacts == nil {
 		e.funcFacts = map[string][]string{}
@@ -188,7 +194,7 @@ func (e *Engine) verifyFunc(pkg *packages.Package, decl *ast.FuncDecl, profile s
 		e.nfresh++
 		r := smtSym(fmt.Sprintf("r!b%d", e.nfresh))
 		e.funcFacts[fc.name] = append(e.funcFacts[fc.name],
-			arr+"|(forall (("+r+" Int)) (! (=> (and (<= 0 "+r+") (< "+r+" "+fc.entryAlloc+")) (and (<= 0 (select "+arr+" "+r+")) (< (select "+arr+" "+r+") "+fc.entryAlloc+"))) :pattern ((select "+arr+" "+r+"))))")
+			arr+"|(forall (("+r+" Int)) (! (=> (< "+r+" "+fc.entryAlloc+") (and (<= 0 (select "+arr+" "+r+")) (< (select "+arr+" "+r+") "+fc.entryAlloc+"))) :pattern ((select "+arr+" "+r+"))))")
 	}
 	start := len(e.obls)
 	defer func() {
@@ -526,6 +532,13 @@ func (fc *FuncCtx) runGhostAt(st *State, where, callee string, n int, when strin
 			continue
 		}
 		for _, gs := range at.Stmts {
+			if where == "exit" {
+				// an exit that precedes the declaration of a variable the statement names is skipped
+				if fc.ghostStmtSkipped(st, gs, pos, fmt.Sprintf("%s%s#%d%s", where, callee, n, when)) {
+					continue
+				}
+				continue
+			}
 			fc.runGhostStmt(st, gs, pos, fmt.Sprintf("%s%s#%d%s", where, callee, n, when))
 		}
 	}
@@ -579,6 +592,20 @@ func (fc *FuncCtx) runGhostStmt(st *State, gs *GhostStmt, pos token.Pos, anchor 
 		specFail("ghost assignment %s: shape mismatch %s vs %s", gs.Name, val.Sh, cur.Sh)
 	}
 	st.ghost[gs.Name] = &Value{Sh: cur.Sh, L: val.L}
+}
+
+func (fc *FuncCtx) ghostStmtSkipped(st *State, gs *GhostStmt, pos token.Pos, anchor string) (skipped bool) {
+	defer func() {
+		if r := recover(); r != nil {
+			if se, ok := r.(specErr); ok && strings.HasPrefix(string(se), "unknown name") {
+				skipped = true
+				return
+			}
+			panic(r)
+		}
+	}()
+	fc.runGhostStmt(st, gs, pos, anchor)
+	return false
 }
 
 func shortHash(s string) string {
